@@ -144,13 +144,17 @@ func monitor(w *world, op Op, r result, b, a *snap) (out []finding) {
 		recv := new(big.Int).Sub(a.delOr0(to, i), b.delOr0(to, i))
 		dd := new(big.Int).Sub(a.dbal[u][i], b.dbal[u][i])
 		ds := new(big.Int).Sub(a.dsup[i], b.dsup[i])
-		if moved.Sign() <= 0 || recv.Sign() < 0 {
+		if moved.Sign() <= 0 || recv.Sign() < 0 || (op.Kind == "mint" && recv.Sign() == 0) {
 			add("conversion-moves-the-stake", "conversion-wrong-direction:"+op.Kind, fmt.Sprintf("moved %s received %s", moved, recv))
 		}
 		if op.Kind == "mint" {
+			// minted = min(whole shares taken from the user, whole shares received by the module) > 0
 			want := new(big.Int).Quo(moved, prec)
-			if dd.Cmp(want) != 0 || ds.Cmp(want) != 0 || r.shares == nil || r.shares.Cmp(want) != 0 {
-				add("mint-issues-floor-of-shares-moved", "mint-amount-mismatch", fmt.Sprintf("moved %s minted %s supply %s", moved, dd, ds))
+			if got := new(big.Int).Quo(recv, prec); got.Cmp(want) < 0 {
+				want = got
+			}
+			if want.Sign() <= 0 || dd.Cmp(want) != 0 || ds.Cmp(want) != 0 || r.shares == nil || r.shares.Cmp(want) != 0 {
+				add("mint-issues-min-of-shares-moved-and-received", "mint-amount-mismatch", fmt.Sprintf("moved %s received %s minted %s supply %s", moved, recv, dd, ds))
 			}
 		} else {
 			want := new(big.Int).Neg(amt)
@@ -170,8 +174,10 @@ func monitor(w *world, op Op, r result, b, a *snap) (out []finding) {
 			add("conversion-keeps-user-value", sig, fmt.Sprintf("user %d validator %d: value %s -> %s (%s %s)", u, i, vb, va, op.Kind, op.Amt))
 		}
 		// guards
-		if b.redel[u][i] {
-			add("refused-with-incoming-redelegation", op.Kind+"-accepted-with-incoming-redelegation", fmt.Sprintf("user %d validator %d", u, i))
+		// the party whose delegation is unbonded (the sender of the shares) must have no
+		// incoming redelegation to the validator: the user for a mint, the module for a burn
+		if b.redel[from][i] {
+			add("refused-with-incoming-redelegation", op.Kind+"-accepted-with-incoming-redelegation", fmt.Sprintf("sender %d validator %d", from, i))
 		}
 		if op.Kind == "mint" && u == operOf[i] {
 			if stakedValue(a.vals[i], a.delOr0(u, i)).Cmp(a.vals[i].MinSelf) < 0 {
